@@ -294,7 +294,19 @@ class Prog:
             self.lines = []
             sc = self.scopes[p["name"]]
             self.lines.append("SUB %s%s" % (p["name"], p["head"]))
-            for _ in range(r.choice([0, 1, 2])):
+            for _ in range(r.choice([0, 1, 2, 3])):
+                shadowable = [b for b in BASES if b.upper() in self.g.consts and b.upper() not in sc.consts and b.upper() not in sc.ext]
+                if shadowable and r.random() < 0.35:
+                    # a local CONST that shadows the global CONST of the same name (same type, another value)
+                    base = r.choice(shadowable)
+                    N = base.upper()
+                    q = self.g.consts[N][0]
+                    self.counter += 1
+                    v = "c%d" % self.counter if q == "$" else 1000 + self.counter
+                    self.lines.append("  CONST %s%s = %s" % (mixcase(r, base), q, ('"%s"' % v) if q == "$" else str(v)))
+                    sc.consts[N] = (q, v)
+                    self.features.add("local_const_shadows_global")
+                    continue
                 free = self.free_bases(sc)
                 if not free:
                     break
@@ -313,7 +325,23 @@ class Prog:
                     q = r.choice("%$")
                     self.counter += 1
                     v = "c%d" % self.counter if q == "$" else 1000 + self.counter
-                    self.lines.append("  CONST %s%s = %s" % (mixcase(r, base), q, ('"%s"' % v) if q == "$" else str(v)))
+                    rhs = ('"%s"' % v) if q == "$" else str(v)
+                    # sometimes defined by a constant expression over a CONST visible here (the local one wins over a global one)
+                    visible = {}
+                    for NN, (qq, vv) in list(self.g.consts.items()) + list(sc.consts.items()):
+                        visible[NN] = (qq, vv)
+                    same = [NN for NN, (qq, vv) in visible.items() if qq == q]
+                    if same and r.random() < 0.6:
+                        NN = r.choice(sorted(same))
+                        ref_name = mixcase(r, NN) + (q if r.random() < 0.5 else "")
+                        if q == "$":
+                            v = visible[NN][1] + "z"
+                            rhs = ref_name + ' + "z"'
+                        else:
+                            v = visible[NN][1] + 1
+                            rhs = ref_name + " + 1"
+                        self.features.add("const_defined_by_const" + ("_shadowed" if NN in sc.consts and NN in self.g.consts else ""))
+                    self.lines.append("  CONST %s%s = %s" % (mixcase(r, base), q, rhs))
                     sc.consts[N] = (q, v)
                     self.features.add("local_const")
             for _ in range(r.randrange(3, 10)):
